@@ -326,6 +326,40 @@ pub fn run(ctx: &Ctx) -> i32 {
         }
     });
     col.layer("interrupt points", done, complete, json!({"statements": nst, "line_sequences": nseq, "max_len": maxlen, "joined_file_sizes": JOIN_SIZES}));
+    // follow mode (the real FollowFileExecutor in child processes): interrupt before the k-th load of the running flag
+    {
+        let mut nf = 0u64;
+        for chunking in 0..2 {
+            let content = "a\nb\nc\nd\n";
+            let chunks: Vec<Vec<u8>> = if chunking == 0 { vec![content.as_bytes().to_vec()] } else { content.split_inclusive('\n').map(|l| l.as_bytes().to_vec()).collect() };
+            for stmt in ["SELECT input FROM t", "SELECT input FROM t WHERE x != 'b'", "SELECT DISTINCT x FROM t"] {
+                let (full, end0, ok0) = crate::checks::c10::follow_child(true, b"", &chunks, stmt, -1);
+                for kq in 0..=4i64 {
+                    let (delivered, end, ok) = crate::checks::c10::follow_child(true, b"", &chunks, stmt, kq);
+                    nf += 1;
+                    col.eval(1);
+                    col.traces_validated.fetch_add(1, Ordering::Relaxed);
+                    // lines 0..k-1 were consumed before the interrupt: the output is what these lines produce
+                    let consumed: Vec<&str> = ["a", "b", "c", "d"].iter().take(kq as usize).cloned().collect();
+                    let expect: Vec<String> = full.iter().filter(|l| consumed.iter().any(|c| l.contains(&format!("\"{}\"", c)))).cloned().collect();
+                    if kq > 0 && kq < 4 {
+                        col.nontrivial(h64(&("follow-intr", chunking, stmt, kq)));
+                    }
+                    if delivered != expect || end != "ok" || !ok || !ok0 || end0 != "ok" {
+                        col.fail(fail(
+                            format!("interrupt:follow:{}", if end != "ok" { "error-reported" } else if delivered.len() > expect.len() { "line-consumed-after-interrupt" } else { "output-not-for-consumed-lines" }),
+                            format!("follow mode `{}` interrupted before load #{}: delivered {:?}, expected {:?}, end={}", stmt, kq, delivered, expect, end),
+                            json!({"layer": "follow", "statement": stmt, "chunking": chunking, "k": kq}),
+                            json!(expect),
+                            json!({"delivered": delivered, "end": end}),
+                            kq as u64,
+                        ));
+                    }
+                }
+            }
+        }
+        col.layer("follow-mode interrupt (FollowFileExecutor in child processes)", nf, true, json!({"interrupt_points": "before load 0..4", "statements": 3}));
+    }
     finish(
         ctx,
         &col,
